@@ -4,5 +4,6 @@ package props
 import (
 	_ "verif/sim/c03"
 	_ "verif/sim/c08"
+	_ "verif/sim/c17"
 	_ "verif/sim/c19"
 )
